@@ -256,18 +256,40 @@ def _longtime(prog: Program, res: Result):
     if lv is None:
         raise AnalysisError(f"{q}: loop over the heights not found")
     H = Rat.atom(lv)
-    ts = f.env.get("ts")
     alpha = Rat.atom("soil.k") / Rat.atom("soil.rhoCp")
+    # the times are whatever is handed to calculate_g_function as its time_values; t_s is that over exp(log_time)
+    from ..model import bind_args
+
+    cgf = prog.func(f"{GF}.calculate_g_function")
+    fwc = [c for c in ast.walk(fi.node) if isinstance(c, ast.Call) and attr_chain(c.func) == "calculate_g_function"]
+    if len(fwc) != 1:
+        raise AnalysisError(f"{q}: call of calculate_g_function not found")
+    tv_arg = bind_args(cgf, fwc[0]).get("time_values")
+    tv = eng.eval(tv_arg, f) if tv_arg is not None else None
+    ex = sym.call("exp", [Rat.atom("log_time")])
+    ts = (tv / ex) if isinstance(tv, Rat) else None
     ok = isinstance(ts, Rat) and ts.equals(H ** 2 / (Rat.const(9) * alpha))
     res.ob("R11.4", f"t_s = H^2 / (9 k / rhoCp) per height (got {vkey(ts)[:60]})", ok, prog.loc(fi, fi.node))
     if not ok:
         res.violation("R11.4", f"ts|{vkey(ts)[:60]}", prog.loc(fi, fi.node), q, f"the characteristic time of a long-time curve is {vkey(ts)[:100]} instead of H^2 / (9 alpha)")
-    tv = f.env.get("time_values")
-    ok = isinstance(tv, Rat) and isinstance(ts, Rat) and tv.equals(sym.call("exp", [Rat.atom("log_time")]) * ts)
+    ok = isinstance(tv, Rat) and isinstance(ts, Rat) and tv.equals(ex * ts) and "exp(log_time)" in tv.key()
     res.ob("R11.4", "physical times = exp(log_time) * t_s", ok, prog.loc(fi, fi.node))
     if not ok:
         res.violation("R11.4", f"times|{vkey(tv)[:60]}", prog.loc(fi, fi.node), q, f"the times handed to pygfunction are {vkey(tv)[:100]} instead of exp(log_time) * t_s")
-    ok = isinstance(f.env.get(f"r_b_values[{lv}]"), Rat) and f.env[f"r_b_values[{lv}]"].equals(Rat.atom("r_b")) and f"g_lts_values[{lv}]" in f.env
+    # the two per-height dictionaries are what is handed to GFunction as r_b_values / g_lts (keyword or **dict)
+    RB_D = G_D = None
+    for n_ in ast.walk(fi.node):
+        pairs = []
+        if isinstance(n_, ast.Dict):
+            pairs = [(k.value, v) for k, v in zip(n_.keys, n_.values) if isinstance(k, ast.Constant)]
+        elif isinstance(n_, ast.Call) and attr_chain(n_.func) == "GFunction":
+            pairs = [(k.arg, k.value) for k in n_.keywords if k.arg]
+        d_ = dict(pairs)
+        if isinstance(d_.get("r_b_values"), ast.Name) and isinstance(d_.get("g_lts"), ast.Name):
+            RB_D, G_D = d_["r_b_values"].id, d_["g_lts"].id
+    if RB_D is None:
+        raise AnalysisError(f"{q}: the per-height dictionaries handed to GFunction (r_b_values, g_lts) were not found")
+    ok = isinstance(f.env.get(f"{RB_D}[{lv}]"), Rat) and f.env[f"{RB_D}[{lv}]"].equals(Rat.atom("r_b")) and f"{G_D}[{lv}]" in f.env
     res.ob("R11.4", "one curve and the borehole radius are stored under each height", ok, prog.loc(fi, fi.node))
     if not ok:
         res.violation("R11.4", "per-height-storage", prog.loc(fi, fi.node), q, "the long-time curve / radius are not stored under the height they were computed for")
@@ -317,7 +339,9 @@ def _longtime(prog: Program, res: Result):
     s2 = State()
     for p in gi.params():
         s2.env[p] = Rat.atom(p)
-    first = next((s for s in gi.node.body if isinstance(s, ast.Assign) and isinstance(s.targets[0], ast.Name) and s.targets[0].id == "h_eq"), None)
+    # the equivalent height: the first top-level local computed from the b_over_h parameter
+    first = next((s for s in gi.node.body if isinstance(s, ast.Assign) and isinstance(s.targets[0], ast.Name)
+                  and any(isinstance(x, ast.Name) and x.id == "b_over_h" for x in ast.walk(s.value))), None)
     v = e2.eval(first.value, s2) if first is not None else None
     ok = isinstance(v, Rat) and v.equals(Rat.atom("self.B") / Rat.atom("b_over_h"))
     res.ob("R11.4", f"equivalent height = B / (B/H) (got {vkey(v)[:40]})", ok, prog.loc(gi, first) if first is not None else prog.loc(gi, gi.node))
